@@ -823,7 +823,8 @@ def api_cases(tier):
         yield (("cfield", "t", None, f"text/plain; charset={cs}", "é\r\nÿ"), fld("u", "é"))
 
 
-API_QUICK_EXTRA = ["dict", "client"] + [stream_label(c) for c in STREAM_CONFIGS]
+API_QUICK_EXTRA = ["dict", "client", "client-307", "parse_form_data", "from_environ", "values", "cls-dict",
+                   "body-stream"] + [stream_label(c) for c in STREAM_CONFIGS]
 
 
 def api_extra_cases():
@@ -1375,9 +1376,8 @@ def run_unit(unit, R, tier):
         for j, pairs in enumerate(gen.shard(ue_cases(tier), n, idx)):
             R.ev(4)
             R.count("urlencoded_cases")
-            # the further API forms: every list in thorough; in quick all single pairs, all triples and the
-            # two-pair lists with a repeated key
-            forms = tier == "thorough" or len(pairs) != 2 or pairs[0][0] == pairs[1][0]
+            # the further API forms on every list (both tiers)
+            forms = True
             R.use("ue:forms" if forms else "ue:core-only")
             fails = check_ue(pairs, forms)
             txt = "".join(k + v for k, v in pairs)
